@@ -17,7 +17,17 @@ Inductive case :=
 | COracleOnly.
 
 Definition vmag (v : vec3 Q) : Q := Qmax' (Qabs (vx v)) (Qmax' (Qabs (vy v)) (Qabs (vz v))).
-Definition pts_mag (ps : list (vec3 Q)) : Q := fold_left (fun m p => Qmax' m (vmag p)) ps 1.
+(* largest |coordinate| of the input points (0 for no points) *)
+Definition pts_mag (ps : list (vec3 Q)) : Q := fold_left (fun m p => Qmax' m (vmag p)) ps 0.
+
+(* closeness relative to the magnitude `mag` of the case's own data, WITHOUT the floor at 1 of the shared relation in
+   Agree.v: at scale 2^-30 a wrong value is still told apart (tolerance 1e-9 of the larger of mag, |a|, |b|) *)
+Definition close_rel (mag a b : Q) : bool :=
+  Qle_bool (Qabs (a - b)) (tol * Qmax' mag (Qmax' (Qabs a) (Qabs b))).
+Definition fl_close_rel (mag m : Q) (o : fl) : bool := match o with Fin q => close_rel mag m q | _ => false end.
+Definition list_close_rel (mag : Q) (m : list Q) (o : list fl) : bool := all2 (fl_close_rel mag) m o.
+Definition vec_close_rel (mag : Q) (m : vec3 Q) (o : list fl) : bool := list_close_rel mag (vlist m) o.
+Definition vecs_close_rel (mag : Q) (m : list (vec3 Q)) (o : list (list fl)) : bool := all2 (vec_close_rel mag) m o.
 
 Definition plane_obs (pl : plane Q) : list Q := vlist (pref pl) ++ vlist (pnormal pl).
 Definition box_observables (b : box Q) : list Q :=
@@ -30,16 +40,16 @@ Definition box_observables (b : box Q) : list Q :=
 Definition check_case (c : case) : bool :=
   match c with
   | CBox o s obs =>
-      res_agree (fun b l => list_close_mag (Qmax' (vmag o) (vmag s)) (box_observables b) l) (box_ctor QOps o s) obs
+      res_agree (fun b l => list_close_rel (Qmax' (vmag o) (vmag s)) (box_observables b) l) (box_ctor QOps o s) obs
   | CFromPoints ps obs =>
-      res_agree (fun b l => list_close_mag (pts_mag ps) (vlist (borigin b) ++ vlist (bsize b)) l) (from_points QOps ps) obs
+      res_agree (fun b l => list_close_rel (pts_mag ps) (vlist (borigin b) ++ vlist (bsize b)) l) (from_points QOps ps) obs
   | CContains o s rows obs =>
       bool_list_eqb (map (fun r => contains QOps (MkBox o s) (fst r) (snd r)) rows) obs
   | CExtent ps obs =>
       res_agree (fun (m : ext_state) (ob : fl * Z * Z) =>
                    let '(d, i, j) := m in let '(od, oi, oj) := ob in
-                   fl_close_mag (pts_mag ps) d od && (i =? oi)%Z && (j =? oj)%Z) (extent QOps ps) obs
+                   fl_close_rel (pts_mag ps) d od && (i =? oi)%Z && (j =? oj)%Z) (extent QOps ps) obs
   | CPercentile ps axis q obs =>
-      res_agree (fun r l => list_close_mag (pts_mag ps) (vlist r) l) (percentile QOps ps axis q) obs
+      res_agree (fun r l => list_close_rel (pts_mag ps) (vlist r) l) (percentile QOps ps axis q) obs
   | COracleOnly => true
   end.
